@@ -23,6 +23,7 @@ structure LP where
   ErrI : Cur → Prop
   σ_lastLoc : ∀ c, (σ c).lastLoc = c.lastLoc
   σ_refLoc : ∀ c, (σ c).refLoc = c.refLoc
+  σ_atAlias : ∀ c, (σ c).atAlias = c.atAlias
   σ_replay : ∀ b i r, σ (.replay b i r) = .replay b i r
   inv_err : ∀ c, Inv c → ErrI c
 
